@@ -240,7 +240,7 @@ theorem parseCidr_plain (b0 b1 b2 b3 : UInt8) (infer allowHost : Bool) :
         then classful (beDec [b0, b1, b2, b3]) else 32) := by
   have hsplit : splitOnN '/' 2 (dotted [b0, b1, b2, b3]) = [dotted [b0, b1, b2, b3]] := splitOnN_none '/' 1 _ (dotted_no_slash _)
   have hcl := classful_le (beDec [b0, b1, b2, b3])
-  unfold parseCidr
+  unfold parseCidr cidrPlain cidrLen cidrMask
   rw [hsplit]
   simp only
   cases infer with
